@@ -583,6 +583,13 @@ impl JsValue {
         }
     }
 
+    /// Convert to an integral number (ToIntegerOrInfinity): NaN becomes 0, every other
+    /// number is truncated towards zero, +Infinity and -Infinity are kept as they are.
+    pub fn to_integer_or_infinity(&self) -> f64 {
+        let n = self.to_number();
+        if n.is_nan() { 0.0 } else { math::trunc(n) }
+    }
+
     /// Convert to string (ToString)
     /// Note: Prefer using `Interpreter::to_js_string()` which uses interned strings.
     /// This method is kept for internal use in value.rs, Debug impl, and tests.
